@@ -1792,7 +1792,7 @@ pub mod bv {
         match fmt {
             "blte" => vec![5 + t, 3, 7],
             "encoding" => vec![5 + t, 4, 3, 2, 3, 2, 3],
-            "archive-index" => vec![2, 3, 6, 2, 2],
+            "archive-index" => vec![5, 3, 6, 2, 2],
             "archive-group" => vec![5, 2],
             "root" => vec![4, 32, 2],
             "install" => vec![10 + 8 * t, 3, 4, 2, 2],
@@ -2033,7 +2033,8 @@ pub mod bv {
     // ---- archive index / group
     fn archive_index(dg: &[u64]) -> Case {
         use cascette_formats::archive::{ArchiveIndex, ArchiveIndexBuilder};
-        let ks = [9u8, 16][dg[0] as usize];
+        // (key 8 / 7 / 6 with offset width 4 / 5 / 6: 16-byte records, which tile a 4 KiB block exactly)
+        let ks = [9u8, 16, 8, 7, 6][dg[0] as usize];
         let ob = [4u8, 5, 6][dg[1] as usize];
         let rpb = 4096 / (ks as usize + 4 + ob as usize);
         let n = [0usize, 1, 2, 3, rpb, rpb + 1][dg[2] as usize];
